@@ -11,6 +11,8 @@
 EXTENDS Naturals, Sequences, FiniteSets, TLC
 
 CONSTANT Dev      \* "HookKeptIfPresent": arming is skipped when a hook is already installed
+                  \* "NestedTimeoutInBand": the limit striking inside a NESTED invocation ends only that one
+                  \*                        (in-band element), the enclosing module carries on
 Default == 60
 Pause == 3        \* a pause longer than the short limit
 
@@ -23,8 +25,14 @@ Pause == 3        \* a pause longer than the short limit
 \*   nmspin / nfspin / nbspin  a module that first makes a NESTED #invoke (frame:preprocess) of a
 \*          missing module / missing function / non-compiling module and then loops for ever:
 \*          the failed nested invocation must not disturb the limit of the outer one
+\*   nspin  a module whose NESTED invocation (frame:preprocess('{{#invoke:..|spin}}')) loops for ever; the
+\*          module itself would return a value right after it
+\*   nlspin the same nested invocation made again and again: while true do pcall(<nested spin>) end
+\*          WHERE the endless code runs makes no difference: the invocation the caller made is stopped at
+\*          its deadline and yields the timeout element
 \*   pause  the caller waits (no Lua)
 EarlyExit == {"nofn", "nomod", "bad"}
+Spins == {"spin", "nmspin", "nfspin", "nbspin", "nspin", "nlspin"}
 
 \* state threaded through a session: armed?, deadline in force, current time
 S0 == [armed |-> FALSE, deadline |-> 0, now |-> 0]
@@ -42,7 +50,12 @@ StepResult(s, st) ==
               IF a.now > a.deadline
               THEN [out |-> "timeout", s |-> [a EXCEPT !.armed = FALSE]]            \* spurious
               ELSE [out |-> "value", s |-> [a EXCEPT !.armed = FALSE]]
-         [] st.k \in {"spin", "nmspin", "nfspin", "nbspin"} ->
+         [] st.k \in {"nspin", "nlspin"} /\ "NestedTimeoutInBand" \in Dev ->
+              \* the nested loop is stopped at the deadline, the enclosing module is not
+              IF st.k = "nspin"
+              THEN [out |-> "value", s |-> [a EXCEPT !.armed = FALSE, !.now = IF a.deadline >= a.now THEN a.deadline + 1 ELSE a.now]]
+              ELSE [out |-> "hung", s |-> a]
+         [] st.k \in Spins /\ ~(st.k \in {"nspin", "nlspin"} /\ "NestedTimeoutInBand" \in Dev) ->
               \* runs until the clock passes the deadline in force
               IF a.deadline >= a.now
               THEN [out |-> IF a.deadline = s.now + st.lim THEN "timeout-in-bound" ELSE "timeout-late",
@@ -55,6 +68,6 @@ Outcomes(sess) == Run(sess, 1, S0)
 
 \* what the property demands of each step, independent of what came before
 Demanded(st) == CASE st.k = "pause" -> "paused" [] st.k \in EarlyExit -> "error"
-                  [] st.k = "heavy" -> "value" [] st.k \in {"spin", "nmspin", "nfspin", "nbspin"} -> "timeout-in-bound"
+                  [] st.k = "heavy" -> "value" [] st.k \in Spins -> "timeout-in-bound"
 MeetsDemand(sess) == Outcomes(sess) = [i \in 1..Len(sess) |-> Demanded(sess[i])]
 =============================================================================
